@@ -266,8 +266,8 @@ class QModuleMixin(ABC):
     def freeze(self):
         qweight = self.qweight
         if qweight is not None:
-            # Replace float weights by quantized weights
-            self.weight = torch.nn.Parameter(qweight)
+            # Replace float weights by quantized weights: they cannot be trained any more
+            self.weight = torch.nn.Parameter(qweight, requires_grad=False)
 
     @property
     def frozen(self):
